@@ -25,6 +25,9 @@ class C02(Check):
 
         for sh in G.grid_shapes():
             add("tx", G.tx_desc(rng, **sh), "tx-grid-type%d-v%d" % (sh["rct_type"], sh["version"]))
+        for sh in G.ring0_shapes():
+            if G.shape_is_wf(sh):
+                add("tx", G.tx_desc(rng, **sh), "tx-empty-ring")
         for _ in range(1500 if not thorough else 20000):
             sh = G.random_shape(rng, small=True)
             add("tx", G.tx_desc(rng, **sh), "tx-random-type%d" % sh["rct_type"])
@@ -49,6 +52,9 @@ class C02(Check):
             add("vec_txout", G.lst([G.txout(rng, rng.random() < 0.5) for _ in range(rng.choice([0, 1, 2, 127, 128]))]), "vec")
             add("bytesvec", [G.hexb(rng, rng.choice([0, 1, 127, 128, 255, 256, 16383, 16384]))], "bytesvec")
             add("hash", [G.key(rng)], "hash")
+            add("box_hash", G.lst([[G.key(rng)] for _ in range(rng.choice([0, 1, 2, 127, 128]))]), "boxed-slice")
+            add("box_varint", G.lst([[str(G.interesting_u64(rng))] for _ in range(rng.choice([0, 1, 2, 127, 128]))]), "boxed-slice")
+            add("box_u8", [G.hexb(rng, rng.choice([0, 1, 127, 128, 255, 256, 16383, 16384]))], "boxed-slice")
             add("hash8", [G.hexb(rng, 8)], "hash")
         # strings: valid UTF-8 through the round trip, arbitrary bytes through the decoder (accept iff well-formed UTF-8)
         texts = ["", "a", "monero", "\u00e9", "\u00b5XMR", "\u20ac", "\ud7ff", "\ue000", "\uffff", "\U00010000", "\U0010ffff", "x" * 127, "y" * 128,
